@@ -399,12 +399,28 @@ def lss_enc(o):
     return out
 
 
-def lss_run(case):
-    from c02 import enc_exc
-    ci, kvs, ops = case
-    name, cls, constrained, maxlen = lss_classes()[ci]
+def lss_arg(d, src):
+    """the mapping argument as a dict or as an instance of one of the SDK's own language string set classes
+    (when that class can hold the content; otherwise the plain dict)"""
+    if src is None:
+        return d
     try:
-        o = cls({TAGS[k]: TXT[t] for k, t in kvs})
+        return lss_classes()[src][1](d)
+    except Exception:  # noqa
+        return d
+
+
+def lss_run(case):
+    """case = (target class index, [(tag id, text ok?)], ops[, source class index or None, long?]);
+    a text that is not ok is either empty or (long) one character longer than the target class allows"""
+    from c02 import enc_exc
+    ci, kvs, ops = case[:3]
+    src = case[3] if len(case) > 3 else None
+    longbad = case[4] if len(case) > 4 else False
+    name, cls, constrained, maxlen = lss_classes()[ci]
+    TXT = {True: "ok", False: ("x" * (maxlen + 1) if (longbad and maxlen) else "")}
+    try:
+        o = cls(lss_arg({TAGS[k]: TXT[t] for k, t in kvs}, src))
     except Exception as e:  # noqa
         code = enc_exc(e)
         return [[code]], (None if code == 1 else (-1, f"constructor raised {type(e).__name__}"))
@@ -430,7 +446,7 @@ def lss_run(case):
             elif k == "setdefault":
                 o.setdefault(TAGS[op[1]], TXT[op[2]])
             elif k == "update":
-                o.update({TAGS[a]: TXT[b] for a, b in op[1]})
+                o.update(lss_arg({TAGS[a]: TXT[b] for a, b in op[1]}, src))
             code = 0
             w = lss_wf(o, constrained, maxlen)
             if w and not fail:
@@ -469,7 +485,7 @@ def frag_lss(chk, can_eval):
         for kvs in ([(0, True)], [(0, True), (1, True)], [(0, False)], [(3, True)], []):
             for L in range(0, exh + 1):
                 for seq in itertools.product(alpha, repeat=L):
-                    cases.append((ci, kvs, list(seq)))
+                    cases.append((ci, kvs, list(seq), [None, 0, 1, 2, 3, 4, 5][len(cases) % 7], len(cases) % 2 == 1))
     chk.cov["lss_exhaustive"] = f"all sequences of length <= {exh} over 12 operations, 5 constructor dicts, LangStringSet and MultiLanguageTextType"
     for _ in range(1500 if chk.tier == "quick" else 12000):
         ci = rng.randrange(6)
@@ -477,7 +493,8 @@ def frag_lss(chk, can_eval):
         if rng.random() < 0.7:
             ks = [k for k in ks if k < 3] or [0]
         kvs = [(k, rng.random() < 0.85) for k in ks]
-        cases.append((ci, kvs, [gen_op() for _ in range(rng.randint(1, 8))]))
+        cases.append((ci, kvs, [gen_op() for _ in range(rng.randint(1, 8))],
+                      rng.choice([None, None, 0, 1, 2, 3, 4, 5]), rng.random() < 0.5))
     terms = []
     for case in cases:
         tr, fail = lss_run(case)
@@ -485,12 +502,12 @@ def frag_lss(chk, can_eval):
         chk.count("lss:" + ("ctor-rejected" if len(tr[0]) == 1 else lss_classes()[case[0]][0]))
         if fail:
             k, msg = fail
-            small = _shrink(case[2][:k + 1], lambda o: lss_run((case[0], case[1], o))[1] is not None)
-            k2, msg2 = lss_run((case[0], case[1], small))[1]
+            small = _shrink(case[2][:k + 1], lambda o: lss_run((case[0], case[1], o) + tuple(case[3:]))[1] is not None)
+            k2, msg2 = lss_run((case[0], case[1], small) + tuple(case[3:]))[1]
             chk.fail(f"C02:LangStringSet:{small[k2][0] if k2 >= 0 else 'ctor'}:{msg2.split(':')[0][:40]}",
                      f"{lss_classes()[case[0]][0]}: " + msg2,
-                     {"kind": "lss", "case": [case[0], [list(x) for x in case[1]], [list(o) for o in small]]})
-        ci, kvs, ops = case
+                     {"kind": "lss", "case": [case[0], [list(x) for x in case[1]], [list(o) for o in small]] + list(case[3:])})
+        ci, kvs, ops = case[:3]
 
         def cop(o):
             k = o[0]
@@ -511,6 +528,41 @@ def frag_lss(chk, can_eval):
         terms.append(f"({'false' if ci == 0 else 'true'}, " + coq_list([f"({k}%nat, {'true' if t else 'false'})" for k, t in kvs], "(nat * bool)")
                      + ", " + coq_list([cop(o) for o in ops], "lop") + f", {coq_z(common.zhash_d(tr, 2))})")
     _eval(chk, "C02lss", terms, "check_lss_case", "LangStringSet", cases, can_eval, shard=1500)
+    # constructor / update() fed with instances of the sibling classes: texts between the two limits
+    C = lss_classes()
+    lens = sorted({1} | {m + d for _, _, _, m in C if m for d in (0, 1)})
+    for ti, (tname, tcls, tcon, tmax) in enumerate(C):
+        for si, (sname, scls, scon, smax) in enumerate(C):
+            for n in lens:
+                if scon and n > smax:
+                    continue
+                source = scls({"en": "x" * n, "de": "ok"})
+                for how in ("ctor", "update"):
+                    if how == "ctor":
+                        holder = [None]
+
+                        def f():
+                            holder[0] = tcls(source)
+                        e = call(f)
+                        o = holder[0]
+                    else:
+                        o = tcls({"fr": "ok"})
+                        e = call(lambda: o.update(source))
+                    ok = (not tcon) or n <= tmax
+                    chk.seen(("lss-sibling", tname, sname, n, how), nontrivial=True)
+                    chk.count("lss:sibling-class-arguments")
+                    msg = None
+                    if e is None and o is not None and lss_wf(o, tcon, tmax):
+                        msg = f"{tname} {how}({sname} with a text of length {n}): accepted - " + lss_wf(o, tcon, tmax)
+                    elif e is None and not ok:
+                        msg = f"{tname} {how}({sname} with a text of length {n}) accepted"
+                    elif e is not None and (ok or type(e) is not ValueError):
+                        msg = f"{tname} {how}({sname} with a text of length {n}) raised {type(e).__name__}"
+                    elif e is not None and how == "update" and dict(o) != {"fr": "ok"}:
+                        msg = f"{tname}.update({sname}) rejected but the set changed"
+                    if msg:
+                        chk.fail(f"C02:LangStringSet:sibling-argument:{how}:{'accepted' if e is None else 'rejected'}", msg,
+                                 {"kind": "lss-sibling", "target": tname, "source": sname, "n": n, "how": how})
     # the tag predicate and the per-class text limits on the SDK alone (boundary lengths, more tags)
     for name, cls, constrained, maxlen in lss_classes():
         for t in TAGS + EXTRA_TAGS["valid"] + EXTRA_TAGS["invalid"]:
@@ -682,7 +734,7 @@ def replay_case(rp):
     elif k == "lss":
         c = rp["case"]
         ops = [tuple([o[0], [tuple(x) for x in o[1]]]) if o[0] == "update" else tuple(o) for o in c[2]]
-        tr, fail = lss_run((c[0], [tuple(x) for x in c[1]], ops))
+        tr, fail = lss_run((c[0], [tuple(x) for x in c[1]], ops) + tuple(c[3:]))
     else:
         print(rp)
         return 1
